@@ -3,7 +3,34 @@
    The five handler flags cannot be read through a table; value.New() installs all handlers
    (SetToBool, SetListHandler, SetMapHandler, SetClosureHandler, SetMethodHandler), and the method
    rule of the optimizer checks for closure fields since the repair. *)
-From P2 Require Import Base.Prelude Sem.Syntax Sem.Opt Generated.ValueCfg.
+From P2 Require Import Base.Prelude Sem.Syntax Sem.Lib Sem.Opt Generated.ValueCfg.
 
 Definition generated_flags : cfgflags :=
   mkflags vcfg_ops vcfg_unary vcfg_static_pure vcfg_meth_impure true true true true true true false.
+
+(* ---------- the regenerated flags against the flags the theorems are about ---------- *)
+
+Definition flag_pair_eqb (a b : bool * bool) : bool :=
+  Bool.eqb (fst a) (fst b) && Bool.eqb (snd a) (snd b).
+
+(* every entry of l1 is in l2 with an equal value *)
+Definition assoc_sub {A} (eqb : A -> A -> bool) (l1 l2 : list (str * A)) : bool :=
+  forallb (fun e => match assoc (fst e) l2 with Some x => eqb x (snd e) | None => false end) l1.
+
+(* g (regenerated) describes the same optimizer configuration as v (the one of the theorems):
+   same operators with the same flags, same unary operators, every static function of v has the same
+   IsPure flag in g, every further static function of g is outside the modelled pool (the model leaves
+   calls of it alone: Opt.node_unmodelled), no impure method, same handlers *)
+Definition flags_match (g v : cfgflags) : bool :=
+  assoc_sub flag_pair_eqb (f_ops g) (f_ops v) && assoc_sub flag_pair_eqb (f_ops v) (f_ops g) &&
+  Nat.eqb (length (f_ops g)) (length (f_ops v)) &&
+  forallb (fun u => mem_name u (f_unary v)) (f_unary g) && forallb (fun u => mem_name u (f_unary g)) (f_unary v) &&
+  assoc_sub Bool.eqb (f_static v) (f_static g) &&
+  forallb (fun e => match assoc (fst e) (f_static v) with
+                    | Some _ => true
+                    | None => match Lib.static_arity (fst e) with None => true | Some _ => false end
+                    end) (f_static g) &&
+  match f_meth_impure g, f_meth_impure v with [], [] => true | _, _ => false end &&
+  Bool.eqb (f_tobool g) (f_tobool v) && Bool.eqb (f_list g) (f_list v) && Bool.eqb (f_map g) (f_map v) &&
+  Bool.eqb (f_closure g) (f_closure v) && Bool.eqb (f_method g) (f_method v) &&
+  Bool.eqb (f_fieldcheck g) (f_fieldcheck v) && Bool.eqb (f_strict g) (f_strict v).
